@@ -36,6 +36,9 @@ type RootInfo struct {
 	Restored bool
 	// ViaTree > 0: (also) committed through the kept tree of that slot.
 	ViaTree int
+	// AfterShortcut: first commit of that tree after one of its batches was dropped because the
+	// root it produced already existed.
+	AfterShortcut bool
 
 	// Filled by the driver (observations, used by the classifier only).
 	Nodes   map[hash.Hash]bool // node hash -> is leaf (walked with api.Visit right after commit)
